@@ -112,9 +112,51 @@ def dead(fnode, node):
     return None
 
 
-def certain(fnode, node):
-    """deletions whose effect on behaviour is certain (not dead, and nothing else can make up for them) -> text or None"""
-    return None
+# Functions that ARE the rule sets / failure conditions a property states: every refusal in them is part of the property,
+# so a refusal that is gone while its test is still made is a violation, not merely an unexplained edit.
+REFUSALS = {
+    'C16': ('bitcoin.core.CheckTransaction', 'bitcoin.core.CheckBlock', 'bitcoin.core.CheckBlockHeader', 'bitcoin.core.CheckProofOfWork'),
+    'C06': ('bitcoin.core.scripteval._EvalScript', 'bitcoin.core.scripteval._CheckMultiSig', 'bitcoin.core.scripteval.VerifyScript', 'bitcoin.core.scripteval._UnaryOp',
+            'bitcoin.core.scripteval._BinOp', 'bitcoin.core.scripteval._CastToBigNum'),
+    'C05': ('bitcoin.core.scripteval._CheckMultiSig', 'bitcoin.core.scripteval.VerifyScript', 'bitcoin.core.scripteval.VerifySignature'),
+    'C12': ('bitcoin.wallet.CBitcoinAddress.__new__', 'bitcoin.wallet.CBech32BitcoinAddress.from_bytes', 'bitcoin.wallet.CBase58BitcoinAddress.from_bytes',
+            'bitcoin.wallet.P2SHBitcoinAddress.from_scriptPubKey', 'bitcoin.wallet.P2PKHBitcoinAddress.from_scriptPubKey', 'bitcoin.wallet.P2WSHBitcoinAddress.from_scriptPubKey',
+            'bitcoin.wallet.P2WPKHBitcoinAddress.from_scriptPubKey', 'bitcoin.wallet.CBitcoinAddress.from_scriptPubKey'),
+    'C19': ('bitcoin.rpc.Proxy.getblock', 'bitcoin.rpc.Proxy.getblockheader', 'bitcoin.rpc.BaseProxy._call'),
+    'C18': ('bitcoin.messages.MsgSerializable.stream_deserialize',),
+    'C01': ('bitcoin.core.serialize.ser_read', 'bitcoin.core.serialize.Serializable.deserialize'),
+    'C10': ('bitcoin.base58.decode', 'bitcoin.base58.CBase58Data.__new__', 'bitcoin.base58.CBase58Data.from_bytes'),
+    'C11': ('bitcoin.bech32.CBech32Data.__new__', 'bitcoin.bech32.CBech32Data.from_bytes'),
+}
+
+
+def certain(prop, q, old_fn, node, new_fn):
+    """deletions whose effect on the property is certain -> text or None: a `raise` (or a call of the interpreter's
+    err_raiser) directly under a test, in a function of the property's rule set, where the test is still made"""
+    if q not in REFUSALS.get(prop, ()):
+        return None
+    is_refusal = isinstance(node, ast.Raise) or (isinstance(node, ast.Expr) and isinstance(node.value, ast.Call) and isinstance(node.value.func, ast.Name) and node.value.func.id == 'err_raiser')
+    if not is_refusal:
+        return None
+    if isinstance(node, ast.Raise) and node.exc is not None and 'AssertionError' in ast.unparse(node.exc):
+        return None  # an internal invariant, not a refusal of input
+    owner, blk = _block_of(node)
+    if isinstance(owner, ast.If) and 'len(commit_script)' in ast.unparse(owner.test):
+        return None  # stricter than the property states (any commitment output of 38 bytes or more carries the commitment)
+    if isinstance(owner, ast.ExceptHandler) and prop != 'C19':
+        return None  # what the handler reported may be refused again further down (another message, the same error family)
+    if isinstance(owner, ast.ExceptHandler) and blk is not None and len([x for x in blk if not isinstance(x, ast.Pass)]) == 1:
+        ty = ast.unparse(owner.type) if owner.type is not None else ''
+        if any(isinstance(n, ast.ExceptHandler) and (ast.unparse(n.type) if n.type is not None else '') == ty and all(isinstance(x, ast.Pass) for x in n.body) for n in ast.walk(new_fn)):
+            return 'the handler `except %s` no longer raises (`%s` is gone): the failure it reported is swallowed and %s carries on' % (ty, ast.unparse(node)[:50], q.rsplit('.', 1)[-1])
+        return None
+    if not isinstance(owner, ast.If) or blk is None or len([x for x in blk if not isinstance(x, ast.Pass)]) != 1:
+        return None
+    t = ast.unparse(owner.test)
+    still = any(isinstance(n, ast.If) and ast.unparse(n.test) in (t, 'not %s' % t, 'not (%s)' % t) for n in ast.walk(new_fn))
+    if not still:
+        return None
+    return 'the refusal `%s` under `%s` is gone while the test is still made: what the confirmed %s turns away now goes through' % (ast.unparse(node)[:60], t[:60], q.rsplit('.', 1)[-1])
 
 
 def scope(prop):
@@ -252,5 +294,9 @@ def rule_delta(ctx, rid):
             r.ok(key, fi.site, 'only dead statements were removed')
             continue
         for n, t in live:
+            sure_text = certain(ctx.prop, q, old, n, fi.node)
+            if sure_text:
+                r.violated('gone:%s:%s' % (key, t[:50]), fi.site, sure_text, sure=True)
+                continue
             r.undecided('gone:%s:%s' % (key, t[:50]), fi.site, 'the statement `%s` of the confirmed %s is gone and nothing replaces it; it is not dead code there, '
                         'and no rule of this property reads it' % (t[:80], fi.name))
